@@ -42,6 +42,17 @@ def build_harness(tags="verif"):
     p = subprocess.run(cmd, cwd=HARNESS, env=goenv(), stdout=subprocess.PIPE, stderr=subprocess.STDOUT, text=True)
     if p.returncode != 0:
         raise Inconclusive("harness build failed:\n" + p.stdout[-4000:])
+    # vhfe: the scenario runner with the emulator's HTTP front end linked in.  The files of package main in
+    # /repo/cmd/aws-lambda-rie are compiled into harness/cmd/vhfe through a build overlay, unchanged.
+    ov = os.path.join(BUILD, "fe-overlay.json")
+    fe = os.path.join(HARNESS, "cmd", "vhfe")
+    with open(ov, "w") as f:
+        json.dump({"Replace": {os.path.join(fe, "zz_repo_handlers.go"): os.path.join(REPO, "cmd", "aws-lambda-rie", "handlers.go"),
+                               os.path.join(fe, "zz_repo_util.go"): os.path.join(REPO, "cmd", "aws-lambda-rie", "util.go")}}, f)
+    cmd = ["go", "build", "-tags", tags, "-overlay", ov, "-o", os.path.join(BUILD, "vhfe"), "./cmd/vhfe"]
+    p = subprocess.run(cmd, cwd=HARNESS, env=goenv(), stdout=subprocess.PIPE, stderr=subprocess.STDOUT, text=True)
+    if p.returncode != 0:
+        raise Inconclusive("front-end harness build failed:\n" + p.stdout[-4000:])
     return out
 
 
